@@ -699,7 +699,11 @@ func checkListingStateReinitialised(w *core.World, r *core.Report, rule string) 
 func checkFrameLookupReadsFramesOnly(w *core.World, r *core.Report, rule string, add *ssa.Function) {
 	var lookups []*ssa.Function
 	seen := map[*ssa.Function]bool{}
-	for _, c := range core.Calls(add) {
+	var sites []ssa.CallInstruction
+	for _, g := range append([]*ssa.Function{add}, cachePkgCallees(add)...) {
+		sites = append(sites, core.Calls(g)...) // the duplicate test may sit in a helper of Add
+	}
+	for _, c := range sites {
 		call, ok := c.(*ssa.Call)
 		f := core.StaticCallee(c)
 		if !ok || f == nil || seen[f] || core.PkgOf(f) != "cache" || f.Signature.Results().Len() != 1 || len(f.Blocks) == 0 {
@@ -795,4 +799,215 @@ func checkCacheErrorsOmitValue(w *core.World, r *core.Report, rule string, metho
 			"the error that refuses a value quotes it: the VM puts the error text in front of the catch node's page, so a result larger than its limit is shown to the client although it was never stored: "+bad)
 	}
 	r.Floor(rule, "error/formatting calls in Add and Update", n, 4)
+}
+
+// checkStopAcknowledgesOnlyCommits (C13 R10): an explicit transaction whose statement failed has been
+// rolled back by the library itself (every failing Put/Get goes through Abort), together with the
+// writes acknowledged before the failure. The only way the application learns that is the error of
+// Stop. So Stop may report success only after it committed: every success return of the back end's
+// Stop passes a Commit on the stored handle - directly, or in a helper in which every success
+// return passes one.
+func checkStopAcknowledgesOnlyCommits(w *core.World, r *core.Report, rule string) {
+	stop := w.Func("db/postgres", "(*pgDb).Stop")
+	if stop == nil {
+		r.Undecided(rule, "db/postgres Stop", token.NoPos, "anchor not found")
+		return
+	}
+	ncommit := 0
+	var ackWithout func(fn *ssa.Function, depth int) (ssa.Instruction, []*ssa.BasicBlock)
+	ackWithout = func(fn *ssa.Function, depth int) (ssa.Instruction, []*ssa.BasicBlock) {
+		cut := core.NewCut()
+		for _, c := range core.Calls(fn) {
+			if strings.HasSuffix(core.CallName(c), ".Commit") {
+				cut.AddInstr(c.(ssa.Instruction))
+				ncommit++
+				continue
+			}
+			if _, ok := c.(*ssa.Call); !ok || depth <= 0 {
+				continue
+			}
+			g := core.StaticCallee(c)
+			if g == nil || g == fn || core.PkgOf(g) != "db/postgres" || len(g.Blocks) == 0 {
+				continue
+			}
+			if hit, _ := ackWithout(g, depth-1); hit == nil {
+				cut.AddInstr(c.(ssa.Instruction))
+			}
+		}
+		return core.Reach(core.Entry(fn), isSuccessReturnPred(fn), cut)
+	}
+	r.Touch(core.QName(stop))
+	hit, path := ackWithout(stop, 2)
+	var pos token.Pos
+	if hit != nil {
+		pos = hit.Pos()
+	}
+	r.Check(hit == nil && ncommit > 0, rule, "db/postgres Stop: success only after a commit", pos, "every success return passes Tx.Commit",
+		"Stop can report success without committing anything: after a statement failed inside an explicit transaction the library has rolled the whole transaction back, and the application is told its acknowledged writes are stored: "+w.PathString(path))
+}
+
+// checkModeFlagNotChangedByOperations (C13 R11): whether statements commit one by one or with the
+// explicit transaction is decided by Start/Stop - the application's bracket. The functions every
+// failing Put/Get runs through (the internal rollback, the lazy opener, the single-statement commit)
+// must leave that mode alone: if a failure inside the bracket silently drops the store out of it,
+// the retry is committed at once and the Abort that follows cannot take it back. Decided
+// structurally: no function reachable from the back end's Put or Get through static calls inside the
+// package stores the mode field.
+func checkModeFlagNotChangedByOperations(w *core.World, r *core.Report, rule string) {
+	n := 0
+	for _, name := range []string{"(*pgDb).Put", "(*pgDb).Get"} {
+		op := w.Func("db/postgres", name)
+		if op == nil {
+			r.Undecided(rule, "db/postgres "+name, token.NoPos, "anchor not found")
+			continue
+		}
+		r.Touch(core.QName(op))
+		seen := map[*ssa.Function]bool{op: true}
+		work := []*ssa.Function{op}
+		bad := ""
+		var badPos token.Pos
+		for len(work) > 0 {
+			fn := work[0]
+			work = work[1:]
+			for _, in := range allInstrs(fn) {
+				if st, ok := in.(*ssa.Store); ok {
+					if tn, f, ok := core.FieldOfAddr(st.Addr); ok && tn == "db/postgres.pgDb" && f == "multi" {
+						bad = fmt.Sprintf("%s stores pgDb.multi at %s", core.QName(fn), w.Pos(st.Pos()))
+						badPos = st.Pos()
+					}
+				}
+				if c, ok := in.(ssa.CallInstruction); ok {
+					if g := core.StaticCallee(c); g != nil && !seen[g] && core.PkgOf(g) == "db/postgres" && len(g.Blocks) > 0 {
+						seen[g] = true
+						work = append(work, g)
+					}
+				}
+			}
+		}
+		n += len(seen)
+		r.Check(bad == "", rule, "db/postgres "+name+": leaves the transaction mode alone", badPos, fmt.Sprintf("%d function(s) reachable, none stores the mode flag", len(seen)),
+			"an operation (or the rollback it runs when a statement fails) changes whether later statements belong to the explicit transaction: after a fault inside Start ... Stop/Abort the retry is committed on its own and stays visible after Abort: "+bad)
+	}
+	r.Floor(rule, "functions reachable from Put/Get in the back end", n, 6)
+}
+
+// checkLoadOnce (C02 R5; the load-once clause of C05 R1 under its pagination reading): a lateral
+// move ('>' / '<') re-executes the node's bytecode, LOADs included. Pages stay stable - and the
+// offered next/previous leads to the neighbouring page - only because a LOAD of a symbol that is
+// already loaded does nothing: the external function would otherwise run again with the browse
+// selector as its input. In the LOAD handler (or the stage of it that calls the external code)
+// the external-code invoker is reached only on the error edge of Memory.Get(decoded symbol).
+func checkLoadOnce(w *core.World, r *core.Report, rule, consequence string) {
+	inv := externalInvokers(w)
+	h := handlerByName(w, r, "LOAD")
+	if h == nil || len(inv) == 0 {
+		r.Undecided(rule, "LOAD handler", token.NoPos, "no handler for LOAD or no external-code invoker")
+		return
+	}
+	ic := callsToSet(h, inv)
+	if len(ic) == 0 {
+		for _, c := range core.Calls(h) {
+			g := core.StaticCallee(c)
+			if g == nil || core.PkgOf(g) != "vm" || len(g.Blocks) == 0 || len(callsToSet(g, inv)) == 0 {
+				continue
+			}
+			sites, escapes := staticCallSites(w, g)
+			if escapes || len(sites) != 1 {
+				continue
+			}
+			h = g
+			ic = callsToSet(h, inv)
+		}
+	}
+	r.Touch(core.QName(h))
+	gets := core.CallsTo(h, memGet, "cache.(*Cache).Get")
+	if len(ic) == 0 {
+		r.Bad(rule, "LOAD handler: invoker call", h.Pos(), "the LOAD handler does not call the external-code invoker")
+	}
+	for _, c := range ic {
+		cut := core.NewCut()
+		okKey := false
+		for _, g := range gets {
+			a := core.CallArgs(g)
+			if len(a) >= 2 && fromResultVia(w, h, a[1], 0, "vm.ParseLoad") {
+				okKey = true
+				cut.AddEdge(errNonNilEdges(callErr(g))...)
+			}
+		}
+		in, path := core.Reach(core.Entry(h), core.IsInstr(c.(ssa.Instruction)), cut)
+		r.Check(okKey && in == nil, rule, "LOAD handler: load once", c.Pos(), "invoker only behind Get(sym) failing", consequence+w.PathString(path))
+	}
+}
+
+// checkIncmpComplete (C03 R16): "the first INCMP whose selector equals the input decides the move"
+// also needs the handler never to skip an INCMP for any other reason than the two the property
+// names: a match is already recorded, or the selector differs from the input. Every success return
+// of the INCMP handler that is not behind the move passes the INMATCH-set edge or the mismatch edge
+// of the deciding comparison (decoded selector against State.GetInput()).
+func checkIncmpComplete(w *core.World, r *core.Report, rule string, h *ssa.Function, fIn int64, disp map[*ssa.Function]bool) {
+	cut := core.NewCut()
+	for _, mv := range callsToSet(h, disp) {
+		cut.AddInstr(mv.(ssa.Instruction))
+	}
+	set, _ := flagTestEdges(h, fIn, true)
+	cut.AddEdge(set...)
+	ncmp := 0
+	for _, x := range allInstrs(h) {
+		bo, ok := x.(*ssa.BinOp)
+		if !ok || (bo.Op != token.EQL && bo.Op != token.NEQ) {
+			continue
+		}
+		selX := fromResult(bo.X, 1, "vm.ParseInCmp")
+		selY := fromResult(bo.Y, 1, "vm.ParseInCmp")
+		inpX := fromResult(bo.X, 0, "state.(*State).GetInput")
+		inpY := fromResult(bo.Y, 0, "state.(*State).GetInput")
+		if (selX && inpY) || (selY && inpX) {
+			ncmp++
+			cut.AddEdge(core.EdgesWhere(bo, bo.Op != token.EQL)...)
+		}
+	}
+	if ncmp == 0 {
+		return // C03 R4 reports the missing comparison
+	}
+	hit, path := core.Reach(core.Entry(h), isSuccessReturnPred(h), cut)
+	var pos token.Pos
+	if hit != nil {
+		pos = hit.Pos()
+	}
+	r.Check(hit == nil, rule, "INCMP handler: an INCMP is skipped only for a recorded match or a mismatch", pos, "every success return passes the move, the INMATCH-set edge or the mismatch edge",
+		"the handler can return without comparing although no match is recorded: an INCMP whose selector equals the input is passed over (a selector the built-in input pattern would not accept, say, while a custom validator lets the input in), and a later wildcard or the catch node takes the input: "+w.PathString(path))
+}
+
+// checkRenderKeepsErrorPrefix (C03 R17): unmatched input reaches the client as the catch node's page
+// with the invalid-input message in front. The message is the error the dead-code check put on the
+// Page (WithError); with an output size configured the template is rendered more than once per page
+// (a measuring pass before the real one), so nothing on the render path may consume it. No function
+// reachable from Page.Render stores Page.err.
+func checkRenderKeepsErrorPrefix(w *core.World, r *core.Report, rule string) {
+	render := w.Func("render", "(*Page).Render")
+	if render == nil {
+		r.Undecided(rule, "render.(*Page).Render", token.NoPos, "anchor not found")
+		return
+	}
+	reach, _ := reachable(w, []*ssa.Function{render})
+	bad := ""
+	var badPos token.Pos
+	n := 0
+	for fn := range reach {
+		if core.PkgOf(fn) != "render" {
+			continue
+		}
+		n++
+		for _, in := range allInstrs(fn) {
+			if st, ok := in.(*ssa.Store); ok {
+				if tn, f, ok := core.FieldOfAddr(st.Addr); ok && tn == "render.Page" && f == "err" {
+					bad = fmt.Sprintf("%s stores Page.err at %s", core.QName(fn), w.Pos(st.Pos()))
+					badPos = st.Pos()
+				}
+			}
+		}
+	}
+	r.Touch(core.QName(render))
+	r.Check(bad == "" && n > 0, rule, "render path: the error prefix is not consumed by rendering", badPos, fmt.Sprintf("%d functions of package render reachable from Page.Render, none stores Page.err", n),
+		"a render clears the error it shows: with an output size the measuring pass consumes it and the catch page is delivered without the invalid-input message: "+bad)
 }
